@@ -323,3 +323,29 @@ func (c *Chooser) Owned() bool {
 
 	return true
 }
+
+// Guard arms a real-time watchdog for one execution: inside a synctest bubble a
+// goroutine blocked on a leaked sync.Mutex (or spinning) is not durably blocked,
+// so the bubble never reaches quiescence and the test would hang until the
+// runner's hard timeout. After d of real time the report is written with a
+// wedge violation naming the current case and the process exits. Call the
+// returned function when the execution has finished. d should be several orders
+// of magnitude above a normal execution (milliseconds): this is a liveness
+// backstop, never a timing oracle.
+func (r *Report) Guard(d time.Duration, sigHint string, describe func() any) (stop func()) {
+	t := time.AfterFunc(d, func() {
+		r.mu.Lock()
+		r.Exhaustive = false
+		r.Capped = "execution wedged (no quiescence within " + d.String() + " of real time)"
+		r.mu.Unlock()
+		var c any
+		if describe != nil {
+			c = describe()
+		}
+		r.Violate(Violation{Oracle: "wedge", Signature: "wedge:" + sigHint, Detail: fmt.Sprint("case: ", c), Replay: map[string]any{"case": c}})
+		r.Write()
+		os.Exit(0)
+	})
+
+	return func() { t.Stop() }
+}
